@@ -20,9 +20,9 @@ CHECKS = {
         technique="deterministic simulation: seeded schedule + client histories, invariants at quiescent points",
         ref="DESIGN.md §6 C03"),
     "C05": dict(
-        text="(a) Admission matrix on layer 1: every client/adversary action issued at a quiescent point is judged against the live dump before it (unknown pid/tid, wrong task kind, terminal act, missing declared output => must be Err) and a rejected action must leave live tasks, rows and streams identical between the two bracketing quiescent points. (b) racing client threads (layer 2) is listed in DESIGN.md and lands with hook H3. Sampling: evidence, not proof.",
-        note="Trusted: H1 live dump; layer 1 treats one client call as atomic. The at-most-once clause is exercised by duplicate (retried) calls here and by preemptive threads in part (b).",
-        technique="deterministic simulation: seeded adversarial action matrix, before/after state comparison at quiescent points",
+        text="Two parts. (a) Admission matrix, layer 1: every client/adversary action issued at a quiescent point (ten action kinds x open act / terminal act in each terminal state / step / branch / root / unknown tid / unknown pid / finished process x exact, missing and extra options) is judged against the live dump before it (necessary conditions => Err) and a rejected action must leave live tasks, rows and streams identical between the two bracketing quiescent points. (b) At-most-once under races, layer 2: 2..8 virtual client threads (real OS threads released one at a time) issue the same action on one open act while the executor runs as one more virtual thread; the baton moves at intercepted engine lock acquisitions with seeded preemption probability; over the invoke/return history exactly one call returns Ok, the successor has one task instance, the act one terminal message; an engine deadlock on its own locks is detected. Sampling: evidence, not proof.",
+        note="Trusted: H1 live dump; hook H3 (lock facade): preemption only at engine lock acquisitions, which guard all shared engine state. Layer 1 treats one client call as atomic; layer 2 does not.",
+        technique="deterministic simulation: seeded adversarial action matrix with before/after comparison (layer 1) + seeded preemptive schedules of racing client threads at lock points (layer 2)",
         ref="DESIGN.md §6 C05"),
     "C04": dict(
         text="Differential and metamorphic: generated models of the bounded grammar x valuation x three variants (declared / shuffled / reversed branch order, each under another scheduler policy, clock-tie rate, client mode and deploy path); every run is compared with the reference interpreter RefFlow (which nodes have task instances, their final states, ordering constraints evaluated on the H2 trace) and the variants with each other (outcome independent of declaration order and schedule). Sampling: evidence, not proof.",
@@ -131,11 +131,11 @@ def main():
         "version": 1,
         "setup_cmd": "./check --build",
         "hooks": {
-            "guard": "cargo feature `verif` of crate acts (off by default)",
+            "guard": "cargo feature `verif` of crate acts (off by default); add_only is false only because of hook H3: ten `use std::sync::{..RwLock/Mutex}` import lines now name the new module crate::sync, which is a plain re-export of std::sync::{Mutex,RwLock} unless the feature is on",
             "enable": "the shadow manifest /verif/sim/acts/Cargo.toml (generated from /repo/acts/Cargo.toml) compiles /repo/acts/src with default = [\"verif\"]; /repo's own manifests are never edited",
             "baseline_off_cmd": "cd /repo && cargo nextest run --workspace --no-fail-fast --test-threads 8 --offline",
             "source_commits": hook_commits,
-            "add_only": True,
+            "add_only": False,
         },
         "engines": [{"name": "acts-sim", "path": "/verif/sim", "serves_properties": [c["property_id"] for c in checks],
                      "kind_free_text": "deterministic simulator (own executor, clock, id source, store/crash/eviction faults) running the real engine compiled from /repo; seeded search, replay files, shrinking"}],
